@@ -121,7 +121,9 @@ PROPS['C09'] = dict(modules=['Hagall.Props.C09'], profiles=['mixed'], n=(40, 400
 
 # every property's obligations include the facts it rests on (regenerated from the source on every run)
 ABS = {'C14': ['Hagall.Gen.AbsCustom'], 'C17': ['Hagall.Gen.AbsFlags'], 'C04': ['Hagall.Gen.AbsDispatch'],
-       'C18': ['Hagall.Gen.AbsLatency'], 'C19': ['Hagall.Gen.AbsChans'], 'C08': ['Hagall.Gen.AbsChans', 'Hagall.Gen.AbsDispatch', 'Hagall.Gen.AbsLife']}
+       'C18': ['Hagall.Gen.AbsLatency'], 'C19': ['Hagall.Gen.AbsChans'], 'C08': ['Hagall.Gen.AbsChans', 'Hagall.Gen.AbsDispatch', 'Hagall.Gen.AbsLife'],
+       # what the concurrent models assume of the order of calls and of the locks held, computed on the regenerated facts
+       **{p: ['Hagall.Gen.AbsOrder'] for p in ('C01', 'C02', 'C03', 'C07', 'C10', 'C12', 'C13', 'C16')}}
 for _p, _c in PROPS.items():
     _c['modules'] = _c['modules'] + [f'Hagall.Gen.Ob{_p}'] + ABS.get(_p, [])
     _c.setdefault('tools', ['drive', 'extract'])
